@@ -43,7 +43,7 @@ func nodeChild(in []byte) (any, error) {
 	c := &lib.Ctx{Prop: "C18", Seed: ni.Seed}
 	r := c.CaseRng("node", ni.Rep)
 	dir := filepath.Join(os.Getenv("VERIF_TMP"), "node")
-	n := node.New(node.Options{DataDir: dir, NoMempool: true})
+	n := node.New(node.Options{DataDir: dir})
 	defer n.Close()
 	cfg := n.Cfg
 	out := &nodeOut{}
